@@ -456,8 +456,108 @@ fn real_writer_jobs(rep: &mut Report, thorough: bool) {
     }
 }
 
+/// Thorough tier, production constants: a compression stack whose plaintext is longer than 4 GiB (more than 1024
+/// blocks; positions no longer fit 32 bits). The plaintext is zeroes with its own position stamped every 4 KiB, written
+/// through the real compression layer writer in 1 MiB pieces; seeks from the end / start / current position around
+/// the end, around 4 GiB and around a block edge beyond it, reads compared with the stamping function.
+fn huge_part(rep: &mut Report) {
+    let len: u64 = (1u64 << 32) + 5 * (1 << 20) + 123;
+    let byte_at = |pos: u64| -> u8 {
+        let k = pos % 4096;
+        if k < 8 { (pos - k).to_le_bytes()[k as usize] } else { 0 }
+    };
+    let built = guard(|| -> Result<Vec<u8>, String> {
+        let mut w = Box::new(CompressionLayerWriter::new(Box::new(RawLayerWriter::new(Vec::new())), &CompressionConfig::default()));
+        let mut piece = vec![0u8; 1 << 20];
+        let mut pos = 0u64;
+        while pos < len {
+            let n = ((len - pos) as usize).min(piece.len());
+            for (i, b) in piece[..n].iter_mut().enumerate() {
+                *b = byte_at(pos + i as u64);
+            }
+            w.write_all(&piece[..n]).map_err(|e| format!("write at {pos}: {e:?}"))?;
+            pos += n as u64;
+        }
+        w.finalize().map_err(|e| format!("finalize: {e:?}"))?;
+        Ok(w.into_raw())
+    });
+    let bytes = match built {
+        Ok(Ok(b)) => b,
+        other => {
+            rep.violate(Violation { sig: json!({"kind": "layer_writer_failed", "stack": "raw+compress (4 GiB)"}), detail: format!("{:?}", other.map(|r| r.map(|b| b.len()))), replay: json!({"huge": true}), weight: 0 });
+            return;
+        }
+    };
+    rep.count("huge_stream_compressed_bytes", bytes.len() as u64);
+    let r = guard(|| -> Option<String> {
+        let mut raw = Box::new(RawLayerReader::new(Cursor::new(&bytes[..])));
+        if let Err(e) = raw.reset_position() {
+            return Some(format!("reset_position: {e:?}"));
+        }
+        let mut sub = match CompressionLayerReader::new(raw) {
+            Ok(s) => s,
+            Err(e) => return Some(format!("compress reader: {e:?}")),
+        };
+        if let Err(e) = sub.initialize() {
+            return Some(format!("initialize: {e:?}"));
+        }
+        let four = 1u64 << 32;
+        let blk = 4u64 << 20;
+        let mut targets = vec![0u64, 1, four - 1, four, four + 1, four + blk - 1, four + blk, four + blk + 7, len - 9, len - 1, len];
+        targets.sort();
+        for t in targets {
+            rep.evaluations += 3;
+            rep.transitions += 6;
+            for (what, sf) in [("seek_start", SeekFrom::Start(t)), ("seek_end", SeekFrom::End(t as i64 - len as i64))] {
+                match sub.seek(sf) {
+                    Ok(p) if p == t => {}
+                    other => return Some(format!("{what} to {t}: {other:?}")),
+                }
+                let mut buf = [0u8; 16];
+                let want = ((len - t) as usize).min(16);
+                let mut got = 0;
+                while got < want {
+                    match sub.read(&mut buf[got..want]) {
+                        Ok(0) => return Some(format!("{what} to {t}: end of stream after {got} of {want} bytes")),
+                        Ok(n) => got += n,
+                        Err(e) => return Some(format!("{what} to {t}: read: {e:?}")),
+                    }
+                }
+                if (0..want).any(|i| buf[i] != byte_at(t + i as u64)) {
+                    return Some(format!("{what} to {t}: bytes differ from the plaintext"));
+                }
+                match sub.stream_position() {
+                    Ok(p) if p == t + want as u64 => {}
+                    other => return Some(format!("{what} to {t}: position after the read {other:?}, expected {}", t + want as u64)),
+                }
+            }
+            // from the current position (now t + want) back to t
+            let here = sub.stream_position().unwrap_or(0);
+            match sub.seek(SeekFrom::Current(t as i64 - here as i64)) {
+                Ok(p) if p == t => {}
+                other => return Some(format!("seek_current to {t}: {other:?}")),
+            }
+        }
+        None
+    });
+    rep.class("raw+compress/4GiB");
+    let h = fnv(b"huge");
+    rep.state(h);
+    rep.nontrivial(h);
+    match r {
+        Ok(None) => {}
+        Ok(Some(d)) => rep.violate(Violation { sig: json!({"kind": "stream_longer_than_4GiB_misbehaves", "stack": "raw+compress"}), detail: format!("plaintext of {len} bytes: {d}"), replay: json!({"huge": true}), weight: 0 }),
+        Err(p) => rep.violate(Violation { sig: json!({"kind": "panic", "panic": p.sig(), "stack": "raw+compress (4 GiB)"}), detail: format!("{p:?}"), replay: json!({"huge": true}), weight: 0 }),
+    }
+}
+
 pub fn run(started: Instant) -> i32 {
     let thorough = infra::thorough();
+    if infra::ctx().part.as_deref() == Some("huge") {
+        let mut rep = Report::new();
+        huge_part(&mut rep);
+        return infra::finish(rep, Meta { level: "model_checking", rule: String::new(), exhaustive: true, bounds: json!({}), assumptions: vec![] }, started);
+    }
     let maxlen = 2 * BLOCK + CHUNK + 8;
     let mut jobs = Vec::new();
     for stack in Stack::ALL {
@@ -482,6 +582,10 @@ pub fn run(started: Instant) -> i32 {
     jobs.push(Job { stack: Stack::Encrypt, len: 65_538 * CHUNK + 7, tree_depth: 99 });
     let mut rep = infra::par_explore(&jobs, |j, rep| run_job(j, rep));
     real_writer_jobs(&mut rep, thorough);
+    if thorough && infra::ctx().part.is_none() {
+        // production constants, a compressed stream longer than 4 GiB
+        infra::run_part("p", "huge", &mut rep);
+    }
     rep.sample(json!({"stack": "raw+encrypt", "len": CHUNK, "history": [["seek_end_to", CHUNK], ["stream_position"]], "then": "read to end"}));
     rep.sample(json!({"stack": "raw+compress", "len": BLOCK, "history": [["read", 5], ["seek_current_to", BLOCK], ["stream_position"]], "then": "read to end"}));
     rep.sample(json!({"stack": "raw+encrypt+compress", "len": 2 * BLOCK + 1, "tree_depth": depth}));
